@@ -452,7 +452,10 @@ def _gen_table(rng, mode):
     base = 10 ** rng.uniform(-40, -2)
     x = [[[base * 10 ** rng.uniform(0, 2) for _ in range(W)] for _ in range(nT)] for _ in range(nP)]
     filt = sorted(rng.sample(range(W), F))
-    return dict(nP=nP, nT=nT, W=W, F=F, xsec=x, Tgrid=Tg, Pgrid=[10 ** v for v in lp], logP=lp, filt=filt, mode=mode)
+    import numpy as np
+    Pg = [10 ** v for v in lp]
+    lp = [float(v) for v in np.log10(np.array(Pg))]       # the log grid exactly as the object computes it (10**v need not round-trip)
+    return dict(nP=nP, nT=nT, W=W, F=F, xsec=x, Tgrid=Tg, Pgrid=Pg, logP=lp, filt=filt, mode=mode)
 
 
 def _pick(rng, grid):
@@ -661,7 +664,17 @@ def bg_pre(c, v):
         d['idxT.' + k] = g
     for k, g in fcp_post(c, _V(arr=s.logPressure, value=v.P), None, (v.p_idx_min, v.p_idx_max)).items():
         d['idxP.' + k] = g
+    if c.mode == 'conc':
+        d['not_on_the_knife_edge'] = _not_knife_edge(v.P, v.T, s.logPressure, s.temperatureGrid)
     return d
+
+
+def _not_knife_edge(logp, T, logP_grid, T_grid):
+    """run-time evaluation only (float = real does not hold here): below the temperature grid the result jumps from the edge-node
+    value to zero exactly at the lowest tabulated pressure; whether a pressure within rounding of that edge counts as 'below' is
+    decided by the last bit of log10 (math.log10 of the query vs numpy.log10 of the grid) -- nothing is claimed there"""
+    lo = float(logP_grid[0])
+    return not (float(T) < float(T_grid[0]) and abs(float(logp) - lo) <= 1e-12 * max(1.0, abs(lo)))
 
 
 def bg_post(c, v0, v1, r):
@@ -755,6 +768,9 @@ def _co_params(c):
 def co_pre(c, v):
     d = self_inv(c, v.self, v.wngrid)
     d['ppos'] = c.Lt(0, v.pressure)
+    if c.mode == 'conc':
+        import math
+        d['not_on_the_knife_edge'] = float(v.pressure) > 0 and _not_knife_edge(math.log10(float(v.pressure)), v.temperature, v.self.logPressure, v.self.temperatureGrid)
     return d
 
 
